@@ -64,11 +64,13 @@ Ok(r, act, ret) ==
 
 \* a call that reports an injected sink failure
 \* (with a concurrent Writer the failing sink call may have happened during an earlier public call)
-Faulted(r) == r.err = "injected" /\ SinkFails
+\* (lifefails: sink calls that failed since the last Reset - a failure is reported only if the sink has failed in this
+\* life of the Writer; an error left over from the frame abandoned by Reset is not one)
+Faulted(r) == r.err = "injected" /\ r.lifefails > 0 /\ SinkFails
 \* Flush / Close as the first call that touches the sink: the failing sink call is the frame header (the first sink call
 \* of this call) - init fails and the Writer is in error from then on, like everywhere else
-HeaderFaulted(r) == r.err = "injected" /\ ws = "new" /\ r.dcalls = 1 /\ SinkFails
-FlushFaulted(r) == r.err = "injected" /\ ~(ws = "new" /\ r.dcalls = 1) /\ FlushFails
+HeaderFaulted(r) == r.err = "injected" /\ r.lifefails > 0 /\ ws = "new" /\ r.dcalls = 1 /\ SinkFails
+FlushFaulted(r) == r.err = "injected" /\ r.lifefails > 0 /\ ~(ws = "new" /\ r.dcalls = 1) /\ FlushFails
 \* after a failure that put the Writer in error, every call fails and nothing reaches the sink until Reset; after a
 \* failure reported by Flush alone (not sticky, see Writer!FlushFails) C15 is silent about what the caller gets
 AfterFailure(r) ==
@@ -127,7 +129,8 @@ TrEnd ==
            \* C15: what reached the sink is a prefix of the fault-free output, and a sink failure has been
            \* reported by some call - by Close at the latest
            /\ r.sinkIsPrefix
-           /\ (r.injected /\ r.closecalled => failed)
+           \* (injected / closecalled are about the life this segment belongs to; `failed' is the model's current life)
+           /\ (r.seg = Len(frames) + 1 /\ r.injected /\ r.closecalled => failed)
            \* a frame closed without failure is complete, strictly valid and round-trips
            /\ f.closed =>
                  /\ r.status = "ok"
